@@ -43,149 +43,149 @@ def helper(x):
     return x * 2
 
 
-@icontract.require(lambda x: x > 0)
+@icontract.require(lambda x: x > 0, enabled=True)
 def f01(x):
     return x
 
 
-@icontract.require(lambda x, y: x < y)
+@icontract.require(lambda x, y: x < y, enabled=True)
 def f02(x, y):
     return x
 
 
-@icontract.require(lambda s: len(s) < 10)
+@icontract.require(lambda s: len(s) < 10, enabled=True)
 def f03(s):
     return s
 
 
-@icontract.require(lambda lst: len(lst) == 0)
+@icontract.require(lambda lst: len(lst) == 0, enabled=True)
 def f04(lst):
     return lst
 
 
-@icontract.require(lambda d: not d)
+@icontract.require(lambda d: not d, enabled=True)
 def f05(d):
     return d
 
 
-@icontract.require(lambda st: not st)
+@icontract.require(lambda st: not st, enabled=True)
 def f06(st):
     return st
 
 
-@icontract.require(lambda fs: not fs)
+@icontract.require(lambda fs: not fs, enabled=True)
 def f07(fs):
     return fs
 
 
-@icontract.require(lambda tp: not tp)
+@icontract.require(lambda tp: not tp, enabled=True)
 def f08(tp):
     return tp
 
 
-@icontract.require(lambda dq: not dq)
+@icontract.require(lambda dq: not dq, enabled=True)
 def f09(dq):
     return dq
 
 
-@icontract.require(lambda arr: not arr)
+@icontract.require(lambda arr: not arr, enabled=True)
 def f10(arr):
     return arr
 
 
-@icontract.require(lambda x, cls: not isinstance(x, cls))
+@icontract.require(lambda x, cls: not isinstance(x, cls), enabled=True)
 def f11(x, cls):
     return x
 
 
-@icontract.require(lambda x, fn: fn(x) < 0)
+@icontract.require(lambda x, fn: fn(x) < 0, enabled=True)
 def f12(x, fn):
     return x
 
 
-@icontract.require(lambda x, mod: mod.sqrt(x) < 0)
+@icontract.require(lambda x, mod: mod.sqrt(x) < 0, enabled=True)
 def f13(x, mod):
     return x
 
 
-@icontract.require(lambda x, bi: bi(x) < 0)
+@icontract.require(lambda x, bi: bi(x) < 0, enabled=True)
 def f14(x, bi):
     return x
 
 
-@icontract.require(lambda meth, x: meth() < x)
+@icontract.require(lambda meth, x: meth() < x, enabled=True)
 def f15(meth, x):
     return x
 
 
-@icontract.require(lambda _ARGS: len(_ARGS) > 3)
+@icontract.require(lambda _ARGS: len(_ARGS) > 3, enabled=True)
 def f16(*args):
     return args
 
 
-@icontract.require(lambda _KWARGS: "zz" in _KWARGS)
+@icontract.require(lambda _KWARGS: "zz" in _KWARGS, enabled=True)
 def f17(**kwargs):
     return kwargs
 
 
-@icontract.require(lambda x, _ARGS, _KWARGS: x > len(_ARGS) + len(_KWARGS))
+@icontract.require(lambda x, _ARGS, _KWARGS: x > len(_ARGS) + len(_KWARGS), enabled=True)
 def f18(x, *args, **kwargs):
     return x
 
 
-@icontract.require(lambda a, b, c, d: a + b + c + d < 0)
+@icontract.require(lambda a, b, c, d: a + b + c + d < 0, enabled=True)
 def f19(a, b, c, d):
     return a
 
 
-@icontract.require(lambda s: s == "", a_repr=SMALL_REPR)
+@icontract.require(lambda s: s == "", a_repr=SMALL_REPR, enabled=True)
 def f20(s):
     return s
 
 
-@icontract.require(lambda lst, d, tp: len(lst) + len(d) + len(tp) == 0, a_repr=SMALL_REPR)
+@icontract.require(lambda lst, d, tp: len(lst) + len(d) + len(tp) == 0, a_repr=SMALL_REPR, enabled=True)
 def f21(lst, d, tp):
     return lst
 
 
-@icontract.require(lambda x: x % 2 == 0, "x must be even")
+@icontract.require(lambda x: x % 2 == 0, "x must be even", enabled=True)
 def f22(x):
     return x
 
 
-@icontract.require(lambda p: p.x > p.y)
+@icontract.require(lambda p: p.x > p.y, enabled=True)
 def f23(p):
     return p
 
 
-@icontract.require(lambda xs: all(x > 0 for x in xs))
+@icontract.require(lambda xs: all(x > 0 for x in xs), enabled=True)
 def f24(xs):
     return xs
 
 
-@icontract.require(lambda x, y=5: x > y)
+@icontract.require(lambda x, y=5: x > y, enabled=True)
 def f25(x, y=5):
     return x
 
 
-@icontract.ensure(lambda result: result > 0)
+@icontract.ensure(lambda result: result > 0, enabled=True)
 def f26(x):
     return x
 
 
-@icontract.snapshot(lambda lst: lst[:])
-@icontract.ensure(lambda OLD, lst: len(lst) == len(OLD.lst) + 2)
+@icontract.snapshot(lambda lst: lst[:], enabled=True)
+@icontract.ensure(lambda OLD, lst: len(lst) == len(OLD.lst) + 2, enabled=True)
 def f27(lst, v):
     lst.append(v)
     return None
 
 
-@icontract.ensure(lambda result, x: result == x + 1)
+@icontract.ensure(lambda result, x: result == x + 1, enabled=True)
 def f28(x):
     return x
 
 
-@icontract.invariant(lambda self: self.x > 0)
+@icontract.invariant(lambda self: self.x > 0, enabled=True)
 class K29:
     def __init__(self, x):
         self.x = x
@@ -197,83 +197,83 @@ class K29:
         self.x -= by
 
 
-@icontract.require(lambda x: x > THRESHOLD)
+@icontract.require(lambda x: x > THRESHOLD, enabled=True)
 def f30(x):
     return x
 
 
-@icontract.require(lambda data: len(data) > 5)
+@icontract.require(lambda data: len(data) > 5, enabled=True)
 def f31(data):
     return data
 
 
-@icontract.require(lambda b: len(b) < 5)
+@icontract.require(lambda b: len(b) < 5, enabled=True)
 def f32(b):
     return b
 
 
-@icontract.require(lambda flag, x: flag == (x > 0))
+@icontract.require(lambda flag, x: flag == (x > 0), enabled=True)
 def f33(flag, x):
     return x
 
 
-@icontract.require(lambda lo, x, hi: lo < x < hi)
+@icontract.require(lambda lo, x, hi: lo < x < hi, enabled=True)
 def f34(lo, x, hi):
     return x
 
 
-@icontract.require(lambda d, k: d[k] > 0)
+@icontract.require(lambda d, k: d[k] > 0, enabled=True)
 def f35(d, k):
     return d
 
 
-@icontract.require(lambda s: s.startswith("a"))
+@icontract.require(lambda s: s.startswith("a"), enabled=True)
 def f36(s):
     return s
 
 
-@icontract.require(lambda x: (x if x > 0 else -x) > 10)
+@icontract.require(lambda x: (x if x > 0 else -x) > 10, enabled=True)
 def f37(x):
     return x
 
 
-@icontract.require(lambda n: len(range(n)) > 5)
+@icontract.require(lambda n: len(range(n)) > 5, enabled=True)
 def f38(n):
     return n
 
 
-@icontract.require(lambda x: x > 0)
+@icontract.require(lambda x: x > 0, enabled=True)
 async def f39(x):
     return x
 
 
-@icontract.ensure(lambda result, delay: result > delay + 100)
+@icontract.ensure(lambda result, delay: result > delay + 100, enabled=True)
 async def f40(x, delay):
     await asyncio.sleep(delay)
     return x
 
 
-@icontract.require(lambda a, b, c: a < b < c)
+@icontract.require(lambda a, b, c: a < b < c, enabled=True)
 def f41(*, a, b, c):
     return a
 
 
-@icontract.require(lambda nested: len(nested) == 0)
+@icontract.require(lambda nested: len(nested) == 0, enabled=True)
 def f42(nested):
     return nested
 
 
-@icontract.require(lambda names: "zz" in names)
+@icontract.require(lambda names: "zz" in names, enabled=True)
 def f43(names):
     return names
 
 
-@icontract.require(lambda table, key: key in table)
+@icontract.require(lambda table, key: key in table, enabled=True)
 def f44(table, key):
     return table
 
 
-@icontract.require(lambda x, helper_fn: helper_fn(x) == x, a_repr=SMALL_REPR)
+@icontract.require(lambda x, helper_fn: helper_fn(x) == x, a_repr=SMALL_REPR, enabled=True)
 def f45(x, helper_fn):
     return x
 
@@ -282,17 +282,17 @@ WIDE = {"maxstring": 1000, "maxother": 1000}
 WIDE_REPR = mk_repr(WIDE)
 
 
-@icontract.require(lambda xs: all(len(x) < 5 for x in xs), a_repr=SMALL_REPR)
+@icontract.require(lambda xs: all(len(x) < 5 for x in xs), a_repr=SMALL_REPR, enabled=True)
 def f46(xs):
     return xs
 
 
-@icontract.require(lambda xs, lim: all(len(x) < lim for x in xs), a_repr=WIDE_REPR)
+@icontract.require(lambda xs, lim: all(len(x) < lim for x in xs), a_repr=WIDE_REPR, enabled=True)
 def f47(xs, lim):
     return xs
 
 
-@icontract.ensure(lambda result: all(k != v for k, v in result.items()), a_repr=SMALL_REPR)
+@icontract.ensure(lambda result: all(k != v for k, v in result.items()), a_repr=SMALL_REPR, enabled=True)
 def f48(pairs):
     return dict(pairs)
 
@@ -309,22 +309,22 @@ def cond_named_plain(a, b):
     return a < b
 
 
-@icontract.require(cond_named_class)
+@icontract.require(cond_named_class, enabled=True)
 def f49(x, cls):
     return x
 
 
-@icontract.require(cond_named_callbacks, a_repr=SMALL_REPR)
+@icontract.require(cond_named_callbacks, a_repr=SMALL_REPR, enabled=True)
 def f50(x, fn, mod, bi, meth):
     return x
 
 
-@icontract.require(cond_named_plain)
+@icontract.require(cond_named_plain, enabled=True)
 def f51(a, b, c=3):
     return a
 
 
-@icontract.invariant(lambda self: len(self.names) < 2, a_repr=SMALL_REPR)
+@icontract.invariant(lambda self: len(self.names) < 2, a_repr=SMALL_REPR, enabled=True)
 class K52:
     def __init__(self, names):
         self.names = names
@@ -336,7 +336,7 @@ class K52:
         self.names.append(name)
 
 
-@icontract.invariant(lambda self: self.total() < 10, a_repr=WIDE_REPR)
+@icontract.invariant(lambda self: self.total() < 10, a_repr=WIDE_REPR, enabled=True)
 class K53(icontract.DBC):
     def __init__(self, parts):
         self.parts = parts
@@ -349,6 +349,21 @@ class K53(icontract.DBC):
 
     def push(self, part):
         self.parts.append(part)
+
+
+def make_limited():
+    """A contracted function whose lambda condition reads a closure variable that can be re-bound later."""
+    limit = 10
+
+    @icontract.require(lambda x: x < limit, enabled=True)
+    def limited(x):
+        return x
+
+    def set_limit(value):
+        nonlocal limit
+        limit = value
+
+    return limited, set_limit
 
 
 def _long_string():
@@ -412,5 +427,8 @@ CASES = [
     {"id": "c51", "fn": "f51", "args": [], "kwargs": {"a": 5, "b": 2}},
     {"id": "c52", "fn": "K52.add", "args": [], "kwargs": {"name": "zzzzzzzzzzzzzzzzzzzzzzzzz"}, "self": ["K52", [["first-name-which-is-long"]]], "a_repr": SMALL},
     {"id": "c53", "fn": "K53.push", "args": [], "kwargs": {"part": 9}, "self": ["K53", [[1, 2]]], "a_repr": WIDE},
+    {"id": "c54", "fn": "f03", "args": [], "kwargs": {"s": "\\" * 150 + "\n" * 60}},
+    {"id": "c55", "fn": "f20", "args": [], "kwargs": {"s": "\\" * 9 + "\n\t"}, "a_repr": SMALL},
+    {"id": "c56", "fn": "f46", "args": [], "kwargs": {"xs": ["ab", "\\\n" * 4]}, "a_repr": SMALL, "all_vars": {"x": "\\\n" * 4}},
     {"id": "c45", "fn": "f45", "args": [], "kwargs": {"x": 123456789012345678901234567890, "helper_fn": helper}, "a_repr": SMALL, "hidden": ["helper_fn"]},
 ]
